@@ -220,6 +220,18 @@ func init() {
 		},
 		Post: crossDiff("avx2", "sse"),
 	}
+	plans["C17"] = &Plan{
+		Level: "fault_enumeration",
+		Rule: "decoder: inputs = concatenations of 1-5 values (scalars incl. top-level numbers, strings with escapes, containers) with every separator shape (none, spaces, newlines, > 4096 spaces) and trailing classes (clean, white space, garbage byte, stray closer, truncated value). For small inputs (<= 40 bytes): the whole input, EOF-with-data, EVERY single cut, every pair of cuts with an interleaved empty read (inputs <= 26 bytes), and a reader FAILURE at EVERY byte position (whole reads and 1-byte reads) are enumerated; larger inputs (values crossing 4096/8192/16384-byte buffers): whole, 1-byte reads and 6 sampled chunkings with cuts at buffer boundaries, empty reads, EOF-with-data and a failure position. Oracle: encoding/json.Decoder driven by the very same reader behaviour: identical value sequence, identical terminal class (io.EOF / error / the injected error by identity), Decode never returns nil without InputOffset advancing (logical progress, bounded by len+3 calls). encoder: random values, Writer failing at EVERY write index, short writes, repeated Encode; bytes must equal Marshal (+newline unless disabled). distinct = hash(input bytes / expected bytes)",
+		Assumptions: append([]string{"tolerated: when the reader FAILS (not EOF) immediately after a top-level number, sonic returns the number and then the error, encoding/json returns the error only"}, stdAssumptions...),
+		MinEvals:    600, MinEvalsThorough: 50000,
+		Runs: func(string) []*Run {
+			return []*Run{
+				{Name: "jit", Flavor: "plain", NBatch: 16, TimeoutS: n(900, 3000)},
+				{Name: "optdec", Flavor: "plain", NBatch: n(2, 8), Env: []string{"SONIC_USE_OPTDEC=1"}, TimeoutS: n(900, 3000)},
+			}
+		},
+	}
 	plans["C19"] = &Plan{
 		Level: "exploration",
 		Rule: "decode: seeded number literals (boundary integers of every width +-2, 15-22 and 30-1100 digit mantissas, exponents around +-308/324/400, long zero runs, exact float64/float32 midpoints built with math/big and perturbed in a far digit, subnormal/min-normal/max boundaries, zeros) through 30+ routes per literal (float64/float32/every integer width/json.Number/interface{} under default, UseNumber, UseInt64/',string' fields/integer map keys/ast accessors/Interface/Preorder callbacks) against strconv and encoding/json; " +
